@@ -37,7 +37,9 @@ func (t *Dict) Serialize(w io.Writer) error {
 			return err
 		}
 
-		nodes = append(tn.children, nodes...)
+		// a fresh slice: appending to tn.children would write into its spare
+		// capacity while only the read lock is held
+		nodes = append(append(make([]*trieNode, 0, len(tn.children)+len(nodes)), tn.children...), nodes...)
 	}
 	return nil
 }
